@@ -383,7 +383,48 @@ func c17Paths(r *Rng, root string, v Val, depth int) []string {
 	return out
 }
 
+// Keys that differ only in white space, or only in the spelling of the path that reaches them, are different keys /
+// the same key: each of them resolves to its own element whichever was asked for first in this process (parsed
+// paths are memoised process-wide, so this runs before anything else has filled that memo).
+func c17LookAlikePaths(r *Run) {
+	m := map[string]any{}
+	for i := 0; i < 24; i++ {
+		m[fmt.Sprintf("a b%d", i)] = fmt.Sprintf("spaced%d", i)
+		m[fmt.Sprintf("ab%d", i)] = fmt.Sprintf("plain%d", i)
+		m[fmt.Sprintf("a  b%d", i)] = fmt.Sprintf("lead%d", i) // two blanks
+	}
+	st := vuego.NewStackWithData(map[string]any{"m": m, "xs": []any{"x0", "x1", "x2"}}, nil)
+	type q struct{ path, want string }
+	var qs []q
+	for i := 0; i < 24; i++ {
+		sp, pl, ld := q{fmt.Sprintf("m['a b%d']", i), fmt.Sprintf("spaced%d", i)}, q{fmt.Sprintf("m['ab%d']", i), fmt.Sprintf("plain%d", i)}, q{fmt.Sprintf("m['a  b%d']", i), fmt.Sprintf("lead%d", i)}
+		switch i % 4 {
+		case 0:
+			qs = append(qs, sp, pl, ld)
+		case 1:
+			qs = append(qs, pl, sp, ld)
+		case 2:
+			qs = append(qs, ld, pl, sp, q{fmt.Sprintf("m.ab%d", i), fmt.Sprintf("plain%d", i)}, q{fmt.Sprintf("m[\"a b%d\"]", i), fmt.Sprintf("spaced%d", i)})
+		default:
+			qs = append(qs, q{fmt.Sprintf("m . ab%d", i), fmt.Sprintf("plain%d", i)}, sp, pl, q{fmt.Sprintf("m.ab%d", i), fmt.Sprintf("plain%d", i)})
+		}
+	}
+	qs = append(qs, q{"xs[1]", "x1"}, q{"xs[ 1 ]", "x1"}, q{"xs.1", "x1"}, q{"xs[11]", ""}, q{"xs[1 1]", ""}, q{"xs.2", "x2"})
+	for round := 0; round < 2; round++ { // the second round meets the memo warm
+		for _, c := range qs {
+			got, ok := st.Resolve(c.path)
+			r.Eval(fmt.Sprintf("lookalike:%d:%s", round, c.path), true, nil)
+			r.Count("stream:look-alike-paths(oracle only)")
+			if (c.want == "") != !ok || (ok && fmt.Sprint(got) != c.want) {
+				r.Fail("a path resolves to the element of a look-alike path", map[string]string{"oracle": "look-alike-paths"},
+					map[string]any{"path": c.path, "resolve": fmt.Sprintf("(%v, %v)", got, ok), "expected": c.want, "round": round})
+			}
+		}
+	}
+}
+
 func runC17(r *Run) {
+	c17LookAlikePaths(r)
 	c17GoIndexing(r)
 	r.Imports = []string{"Base.Val", "Model.Stack"}
 	r.Rule("histories of Stack operations (Push fresh / reused caller map, Pop, Set, Lookup, Resolve, EnvMap, Copy+switch, ForEach, GetString/Int/Slice/Map) " +
